@@ -704,6 +704,77 @@ func ExchangeCases(tier string, seed uint64) []ExCase {
 		e.End(c, co)
 		e.O.Exs = []Ex{ex}
 	}})
+	// upstream proxy reached over TLS (https://): TLS failures towards the upstream proxy
+	cs = append(cs, ExCase{Name: "connect-https-upstream-speaks-plaintext", Leaf: "connect-err", Class: "tlsfail", Run: func(e *Env) {
+		up := e.Peer(func(c net.Conn, n int) {
+			c.Write([]byte("HTTP/1.1 400 Bad Request\r\nContent-Length: 0\r\n\r\n"))
+			time.Sleep(50 * time.Millisecond)
+			c.Close()
+		})
+		e.Start(func(op *Options) { op.Upstream = "https://" + up.Addr })
+		c := e.Client()
+		f := NoFeat()
+		f.RecordHdr = true
+		ex := Ex{Val: Val{Connect: true, Cn: 1}, Method: "CONNECT", Feat: f}
+		co := e.Do(c, connectReq("example.invalid:443"), false, &ex)
+		e.End(c, co)
+		e.O.Exs = []Ex{ex}
+	}})
+	cs = append(cs, ExCase{Name: "connect-https-upstream-untrusted-cert", Leaf: "connect-err", Class: "tlsfail", Run: func(e *Env) {
+		up := e.Peer(func(c net.Conn, n int) {
+			tc := tls.Server(c, &tls.Config{Certificates: []tls.Certificate{cert2}, MinVersion: tls.VersionTLS12})
+			tc.SetDeadline(time.Now().Add(2 * time.Second))
+			tc.Handshake()
+			tc.Close()
+		})
+		e.Start(func(op *Options) { op.Upstream = "https://" + up.Addr })
+		c := e.Client()
+		f := NoFeat()
+		f.Cert = true
+		ex := Ex{Val: Val{Connect: true, Cn: 1}, Method: "CONNECT", Feat: f}
+		co := e.Do(c, connectReq("example.invalid:443"), false, &ex)
+		e.End(c, co)
+		e.O.Exs = []Ex{ex}
+	}})
+	// SOCKS5 upstream proxy
+	for _, k := range []string{"refuses-target", "garbage", "closes", "silent"} {
+		k := k
+		class := map[string]string{"refuses-target": "connfail", "garbage": "other", "closes": "other", "silent": "timeout"}[k]
+		cs = append(cs, ExCase{Name: "connect-socks5-upstream-" + k, Leaf: "connect-err", Class: class, Run: func(e *Env) {
+			up := e.Peer(func(c net.Conn, n int) {
+				buf := make([]byte, 64)
+				c.SetReadDeadline(time.Now().Add(2 * time.Second))
+				c.Read(buf) // greeting: 05 01 00
+				switch k {
+				case "garbage":
+					c.Write([]byte("HTTP/1.1 200 OK\r\n\r\n"))
+					c.Close()
+				case "closes":
+					c.Close()
+				case "silent":
+					time.Sleep(2 * time.Second)
+					c.Close()
+				default:
+					c.Write([]byte{5, 0})  // no authentication
+					c.Read(buf)            // connect request
+					c.Write([]byte{5, 5, 0, 1, 0, 0, 0, 0, 0, 0}) // reply: connection refused
+					time.Sleep(30 * time.Millisecond)
+					c.Close()
+				}
+			})
+			e.Start(func(op *Options) { op.Upstream = "socks5://" + up.Addr; op.ConnectTimeout = 300 * time.Millisecond })
+			c := e.Client()
+			f := NoFeat()
+			f.OpErr = 1 // golang.org/x/net/internal/socks reports *net.OpError{Op: "socks connect"}
+			if k == "silent" {
+				f.OpErr = 2
+			}
+			ex := Ex{Val: Val{Connect: true, Cn: 1}, Method: "CONNECT", Feat: f}
+			co := e.Do(c, connectReq("example.invalid:443"), false, &ex)
+			e.End(c, co)
+			e.O.Exs = []Ex{ex}
+		}})
+	}
 	for _, k := range []string{"close", "garbage", "reset"} {
 		k := k
 		class := "other"
